@@ -255,6 +255,23 @@ def auth_case(mech, shape, tls, state_kind, verdict):
                 peer.send(b'\r\n')
                 final = peer.reply()
                 n += 1
+    elif shape == 'nonutf8':
+        # valid base64 of bytes that are not UTF-8, in every place a credential can travel
+        bad = b64(b'\0\xff\xfeuser\0p\xffw') if mech == b'PLAIN' else b64(b'\xff\xfe\xfduser')
+        if mech == b'CRAM-MD5':
+            peer.send(b'AUTH CRAM-MD5\r\n')
+            final = peer.reply()
+            if final and final[0] == 334:
+                peer.send(b64(b'\xff\xfeuser 0123456789abcdef0123456789abcdef') + b'\r\n')
+                final = peer.reply()
+        else:
+            peer.send(b'AUTH ' + mech + b' ' + bad + b'\r\n')
+            final = peer.reply()
+            n = 0
+            while final and final[0] == 334 and n < 3:
+                peer.send(b64(b'p\xff\xfew') + b'\r\n')
+                final = peer.reply()
+                n += 1
     elif shape == 'unknownmech':
         peer.send(b'AUTH BOGUS-MECH abc\r\n')
         final = peer.reply()
@@ -368,7 +385,7 @@ def main():
     mechs = [b'PLAIN', b'LOGIN', b'CRAM-MD5']
     for mech in mechs:
         for tls in (False, True):
-            for shape in ('initial', 'challenge', 'cancel', 'badb64', 'empty'):
+            for shape in ('initial', 'challenge', 'cancel', 'badb64', 'empty', 'nonutf8'):
                 jobs.append(('auth', mech, shape, tls, 'ok', 0))
             jobs.append(('auth', mech, 'initial', tls, 'ok', 535))
             for st in ('pre_ehlo', 'in_trans', 'after_auth', 'after_auth_ehlo'):
@@ -391,7 +408,7 @@ def main():
             cls = 'starttls' + ('-open' if len(job[1]) > 1 and b'MAIL' in job[1][1] else '') + ('-inject' if job[2] else '')
             cfg = {'kind': 'starttls'}
         elif job[0] == 'auth':
-            cls = 'auth-' + job[1].decode().lower() + ('-tls' if job[3] else '-notls') + '-' + job[4] + ('-' + job[2] if job[2] in ('bare', 'badb64', 'cancel', 'unknownmech') else '')
+            cls = 'auth-' + job[1].decode().lower() + ('-tls' if job[3] else '-notls') + '-' + job[4] + ('-' + job[2] if job[2] in ('bare', 'badb64', 'cancel', 'unknownmech', 'nonutf8') else '')
             cfg = {'kind': 'auth'}
         else:
             cls = 'clienttls' + ('-inject' if job[1] else '')
